@@ -130,8 +130,23 @@ def default_to_datum(default, schema, named_schemas):
         from ._schema_py import _default_matches_schema
 
         for branch in schema:
-            if _default_matches_schema(default, branch, named_schemas):
-                return default_to_datum(default, branch, named_schemas)
+            if not _default_matches_schema(default, branch, named_schemas):
+                continue
+            if isinstance(default, str):
+                # a string can stand for several types: it is not meant for a
+                # fixed of another size or an enum without that symbol
+                named = branch
+                if isinstance(named, str):
+                    named = named_schemas.get(named, named)
+                if isinstance(named, dict) and (
+                    (named.get("type") == "fixed" and named.get("size") != len(default))
+                    or (
+                        named.get("type") == "enum"
+                        and default not in named.get("symbols", ())
+                    )
+                ):
+                    continue
+            return default_to_datum(default, branch, named_schemas)
         return default
 
     if not isinstance(schema, dict):
